@@ -237,9 +237,9 @@ func (s Site) Ops() []string {
 		return []string{"append", "trunc", "char", "clear"}
 	case "bytes":
 		if s.Len == 0 {
-			return []string{"one-byte", "hostile", "nil<->empty"}
+			return []string{"one-byte", "hostile", "nil<->empty", "oversize"}
 		}
-		return []string{"flip", "trunc", "extend", "clear", "hostile", "last-byte"}
+		return []string{"flip", "trunc", "extend", "clear", "hostile", "last-byte", "oversize"}
 	case "msg":
 		if s.Set {
 			return []string{"clear", "empty"}
@@ -424,6 +424,9 @@ func (s Site) Mutate(m proto.Message, op string, d Drawer) (out proto.Message, d
 			nv = []byte{byte(d.Intn(256, "b"))}
 		case "hostile":
 			nv = Bytes(HostileLens[1+d.Intn(len(HostileLens)-1, "hlen")], HostileFills[d.Intn(len(HostileFills), "hfill")])
+		case "oversize":
+			// just beyond what a one-byte length prefix (store key segment) can express
+			nv = Bytes([]int{256, 257, 300, 511, 512, 1024}[d.Intn(6, "olen")], HostileFills[d.Intn(len(HostileFills), "ofill")])
 		case "nil<->empty":
 			if s.idx >= 0 {
 				return nil, desc, false
@@ -475,7 +478,19 @@ func zeroElem(l protoreflect.List, fd protoreflect.FieldDescriptor) protoreflect
 	if fd.Kind() == protoreflect.BytesKind {
 		return protoreflect.ValueOfBytes([]byte{})
 	}
-	return fd.Default()
+	switch fd.Kind() {
+	case protoreflect.StringKind:
+		return protoreflect.ValueOfString("")
+	case protoreflect.BoolKind:
+		return protoreflect.ValueOfBool(false)
+	case protoreflect.EnumKind:
+		return protoreflect.ValueOfEnum(0)
+	case protoreflect.FloatKind:
+		return protoreflect.ValueOfFloat32(0)
+	case protoreflect.DoubleKind:
+		return protoreflect.ValueOfFloat64(0)
+	}
+	return u64Value(0, fd)
 }
 
 func cloneVal(v protoreflect.Value, fd protoreflect.FieldDescriptor) protoreflect.Value {
